@@ -44,7 +44,10 @@ class CHECK(FloCheck):
             "flip at chosen ticks, guarded targets of go, `is updated` / `is changed` conditions (with/without `in frame`) on 30 % "
             "of the transitions and conditional-aux clauses, plain and conditional auxiliaries with guarded first frames, an "
             "original auxiliary named by two frames, also through an auxiliary's own frame (10 % of the main framers: z named "
-            "by a frame and by the first frame of that outline's other auxiliary y), inactive framers started later) 60 %, gen_susp 25 %, gen_program "
+            "by a frame and by the first frame of that outline's other auxiliary y; 12 %: through a named clone of a moot "
+            "framer, clone above/below the other claimant, after a further original, two levels deep), control sequences on "
+            "an inactive framer (45 %: the clock bids `ready`, later — in the tick in which it also flips the guard share — "
+            "`start`/`ready`/`stop`), inactive framers started later) 60 %, gen_susp 25 %, gen_program "
             "15 %; 4-14 ticks. Non-trivial = a transition is taken, an auxiliary entered or a start/transition refused; "
             "distinct by program")
     TRUSTED = ["correspondence: real Builder + Skedder vs the Lean interpreter (engine 'flo'): recorder events, per-tick "
@@ -102,7 +105,7 @@ class CHECK(FloCheck):
         return case.get("gen", "?") + ":idle"
 
     def oracle(self, case, out):
-        prog = case["prog"]
+        prog = floeng.expand(case["prog"])      # named clones as explicit non-original auxiliaries
         m = floref.Machine(prog)                      # static structure only
         owner, lets, plain = {}, {}, {}
         has_enter, has_exit = set(), set()
